@@ -42,8 +42,11 @@ fn exec_e3(j: &J) -> Result<RunOut, String> {
     let mut h = Hasher64::new();
     // per-replica results r_i through single-index delivery (real code, one replica at a time)
     let mut scores: Vec<f64> = vec![];
+    // false once the pipeline turns out not to iterate over the replica indices (per-replica
+    // results are then unavailable and only the clauses that do not need them are decided)
+    let mut alone_available = true;
     for i in 0..kmax as usize {
-        let c = SimConfig { workers: 1, reference: true, yield_gap: 0, deliver: Some(vec![i]), max_leaf: 0 };
+        let c = SimConfig { workers: 1, reference: true, yield_gap: 0, deliver: Some(vec![i]), deliver_expect: sc.replicas as usize, max_leaf: 0 };
         let r = match run_pipeline(&sc, &c, &Sched::Random(0), 1) {
             Ok(mut v) => v.pop().ok_or("no single result")?,
             Err(p) => {
@@ -51,6 +54,11 @@ fn exec_e3(j: &J) -> Result<RunOut, String> {
                 return Ok(out);
             }
         };
+        if r.stats.subset_not_applicable > 0 {
+            alone_available = false;
+            out.count("probe.single_index_delivery_not_applicable", 1);
+            break;
+        }
         if let Some(e) = &r.error {
             if e.starts_with("HARNESS") {
                 return Err(e.clone());
@@ -83,7 +91,7 @@ fn exec_e3(j: &J) -> Result<RunOut, String> {
     for k in 1..=kmax {
         let mut sck = sc.clone();
         sck.replicas = k;
-        let cfg = SimConfig { workers, reference: false, yield_gap, deliver: None, max_leaf: (seeds.below(3)) as usize };
+        let cfg = SimConfig { workers, reference: false, yield_gap, deliver: None, deliver_expect: 0, max_leaf: (seeds.below(3)) as usize };
         let sched = if seeds.chance(0.3) { Sched::Pct(seeds.next_u64() >> 20, 2) } else { Sched::Random(seeds.next_u64() >> 20) };
         let r = match run_pipeline(&sck, &cfg, &sched, 1) {
             Ok(mut v) => v.pop().ok_or("no result")?,
@@ -124,14 +132,14 @@ fn exec_e3(j: &J) -> Result<RunOut, String> {
                 break;
             }
         };
-        let best = scores[..k as usize].iter().cloned().fold(f64::NEG_INFINITY, f64::max);
-        if !rel_close(written, best) {
+        let best = if alone_available { scores[..k as usize].iter().cloned().fold(f64::NEG_INFINITY, f64::max) } else { written };
+        if alone_available && !rel_close(written, best) {
             out.violate(Violation::new(
                 "not-the-best-replica",
                 k,
                 format!(
                     "{} replications ({} workers, {:?}): the written structure scores {:e} but the best of replicas 0..{} (each run alone through the same code) scores {:e}; per-replica scores {:?}",
-                    k, workers, sched, written, k - 1, best, &scores[..k as usize]
+                    k, workers, sched, written, k - 1, best, &scores[..(k as usize).min(scores.len())]
                 ),
             ));
         }
